@@ -215,6 +215,10 @@ func (w *World) Init(s *kernel.Sim) {
 	w.ll = ll
 	w.maxCalls = t.Range(1, 5)
 	w.conc = t.Range(1, 3)
+	if kernel.Thorough() {
+		w.maxCalls = t.Range(1, 9)
+		w.conc = t.Range(1, 4)
+	}
 	w.stubTimeout = []time.Duration{10 * time.Second, 90 * time.Second}[t.Intn(2)]
 
 	verifhook.Yield = func(point string, args ...string) {
